@@ -503,7 +503,7 @@ def gen_run(rng, tier):
         for c in cfgs:
             c["kind"] = "glr"
     kinds = [k for k in pool.DAMAGE_KINDS if rng.random() < 0.7] or ["junk"]
-    modes = ["default", "default", "default", "skip", "inject", "mixed", "giveup"]
+    modes = ["default", "default", "default", "skip", "pureskip", "inject", "mixed", "giveup"]
     spec["reuse"] = reuse
     if sc.get("dynamic"):
         for c in cfgs:
